@@ -20,6 +20,7 @@ type StreamSpec struct {
 	Sizes     []int    `json:"sizes"` // cycled over messages
 	Salt      uint32   `json:"salt"`
 	ReadBuf   string   `json:"read_buf,omitempty"` // none | small | big
+	BadWrite  int      `json:"bad_write,omitempty"` // >0: before client write number BadWrite-1 the client tries to write a value the codec cannot encode
 }
 
 // Case is several streams plus unary traffic on one connection.
@@ -56,6 +57,9 @@ func gen(t *rapid.T) Case {
 		}
 		if s.Behaviour != "pushonly" {
 			s.Writes = rapid.IntRange(0, 30).Draw(t, "writes")
+			if s.Writes > 0 && rapid.IntRange(0, 4).Draw(t, "bad_write") == 0 {
+				s.BadWrite = 1 + rapid.IntRange(0, s.Writes-1).Draw(t, "bad_write_at")
+			}
 		}
 		ns := rapid.IntRange(1, 3).Draw(t, "nsizes")
 		for k := 0; k < ns; k++ {
@@ -91,7 +95,7 @@ func run(c Case) kit.Outcome {
 		return kit.Outcome{Invalid: true}
 	}
 	for _, s := range c.Streams {
-		if s.Pushes < 0 || s.Pushes > 500 || s.Writes < 0 || s.Writes > 500 || len(s.Sizes) == 0 {
+		if s.Pushes < 0 || s.Pushes > 500 || s.Writes < 0 || s.Writes > 500 || len(s.Sizes) == 0 || s.BadWrite < 0 || s.BadWrite > s.Writes {
 			return kit.Outcome{Invalid: true}
 		}
 		for _, z := range s.Sizes {
@@ -253,6 +257,11 @@ func run(c Case) kit.Outcome {
 			}
 			// client writes (echoed back unless readonly)
 			for k := 0; k < sp.Writes; k++ {
+				if sp.BadWrite == k+1 {
+					// a write that fails locally (nothing reaches the wire) must not cost later messages
+					bad := "not a *[]byte"
+					st.WriteMessage(&bad)
+				}
 				m := msg(i, 0, k, sp)
 				if err := st.WriteMessage(&m); err != nil {
 					undec("stream %d: WriteMessage %d failed: %v", i, k, err)
@@ -376,6 +385,12 @@ func run(c Case) kit.Outcome {
 	}
 	if serverFirst {
 		out.Classes = append(out.Classes, "server-writes-first")
+	}
+	for _, sp := range c.Streams {
+		if sp.BadWrite > 0 {
+			out.Classes = append(out.Classes, "failed-local-write")
+			break
+		}
 	}
 	if len(c.Streams) >= 2 {
 		out.Classes = append(out.Classes, "multi-stream")
